@@ -77,7 +77,11 @@ def lua_loader(ctx: "Wtp", modname: str) -> Optional[str]:
                 continue
 
             file_path = LUA_DIR / prefix / path
-            if file_path.is_file():
+            try:
+                is_file = file_path.is_file()
+            except OSError:  # e.g. file name too long
+                is_file = False
+            if is_file:
                 with file_path.open("r", encoding="utf-8") as f:
                     data = f.read()
                 break
@@ -385,7 +389,7 @@ def call_lua_sandbox(
             "#invoke {} with too few arguments".format(invoke_args),
             sortid="luaexec/369",
         )
-        return "{{" + invoke_args[0] + ":" + "|".join(invoke_args[1:]) + "}}"
+        return "{{#invoke:" + "|".join(invoke_args) + "}}"
 
     # Initialize the Lua sandbox if not already initialized
     if len(ctx.lua_env_stack) == 0:
